@@ -16,25 +16,38 @@ RULE = ("every boolean mask of every shape with H*W <= N (see exhaustive_subspac
         "blurring_mask_2d_from) and, on a smaller exhaustive set, through Mask2D.derive_indexes / derive_mask / derive_grid "
         "and Grid2D.blurring_grid_from; plus random masks up to 9x9 (iid, blobs with holes, diagonal walks / thin bridges, "
         "mostly-unmasked with pin holes, with and without a masked padding ring) with kernels in {1,3,5,7}^2 and a few "
-        "even / non-positive kernels. Non-trivial = the mask has at least one unmasked pixel; distinct = distinct JSON input.")
+        "even / non-positive kernels.  HISTORIES (op hist, Model/C10.v Part 5): programs over a pool of Mask2D objects -- construct "
+        "(array / list / int array / invert=True / with_new_array / resized_from), read some or all views through fresh or HELD "
+        "derive_indexes / derive_mask / derive_grid objects, edit in place (obj[y,x]=v, obj.mask[y,x]=v, obj.array[y,x]=v, obj[y][x]=v, "
+        "numpy scalars, int values, negative indices, obj[boolean key]=v), copy (copy(), copy.copy, deepcopy, Mask2D(mask=obj)), derive a "
+        "Mask2D (derive_mask.edge/border/edge_buffed/blurring_from, derive_grid.edge/border .mask, blurring_grid_from(...).mask, invert()), "
+        "edit the derived object, and read everything again (eleven views, blurring mask and grid, util functions on a twin ndarray that is "
+        "re-used and edited in place); every read must equal the model on the CURRENT contents of that object and show those contents. "
+        "Families: one view read -> edit -> re-read all (every view x fresh/held x edit route); copy then edit copy / original; derived objects; "
+        "two edits restoring the number of unmasked pixels; all small masks x every cell flipped; random programs. "
+        "Non-trivial = the mask has at least one unmasked pixel; distinct = distinct JSON input.")
 EXHAUSTIVE = {
     "quick": "util edge/border/buffed: all masks of all shapes with H*W <= 10 and all 3x4 / 4x3 masks (15 498 masks, "
              "outer-ring pixels included); public derive_* views and check_if_edge_pixel: all masks with H*W <= 9; blurring "
              "(util and public alternating): all masks with H*W <= 9 x kernels (1,1), (3,3) and every other one of (1,3), (3,1), "
-             "and all 3x4 / 4x3 masks x kernel (3,3)",
+             "and all 3x4 / 4x3 masks x kernel (3,3); histories: all masks with H*W <= 4 x every cell flipped between two full reads",
     "thorough": "util on all masks of all shapes with H*W <= 12 (35 978 masks) and on all 4x4, 3x5 and 5x3 masks; public views on all "
                 "masks with H*W <= 12 and on every other 4x4 / 3x5 / 5x3 mask; blurring on all masks with H*W <= 9 x kernels {1,3,5}^2, on all "
                 "masks with 10 <= H*W <= 12 x kernel (3,3) and one more kernel of {1,3,5}^2 in rotation, and on all 5x5 masks with a masked "
-                "outer ring x kernels {1,3,5}^2",
+                "outer ring x kernels {1,3,5}^2; histories: all masks with H*W <= 6 and all 3x3 masks x every cell flipped between two full reads",
 }
 TRUSTED = ["correspondence harness harness/c10.py (mask/array printing; grid coordinates are doubled and must be integers, "
            "asserted exactly with fractions.Fraction)",
            "numpy semantics modelled in Model/C10.v Part 1: a[y,x] reads/writes with negative-index wrap, np.full, np.sum of a "
-           "boolean slice, fancy indexing a[idx] and mask[ys,xs] = False"]
+           "boolean slice, fancy indexing a[idx] and mask[ys,xs] = False",
+           "histories: the harness's interpreter of history programs (run_hist): it applies each edit to the Mask2D and to the twin ndarray, "
+           "and prints as the mask field of every read what np.array(obj) shows at that moment"]
 ASSUMPTIONS = ["native_index_for_slim_index_2d_from and grid_2d_slim_via_mask_from are modelled as append / map over the "
                "row-major scan (their preallocate-and-write form belongs to C01 / C02); the correspondence run exercises them",
                "pixel scales and origins of the grid views are small integers so that doubled coordinates are exact integers",
-               "Mask2D(...) / Grid2D(...) constructors keep the arrays they are given (checked by the KViews / KBlur cases)"]
+               "Mask2D(...) / Grid2D(...) constructors keep the arrays they are given (checked by the KViews / KBlur cases)",
+               "object layer (Model/C10.v Part 5): a Mask2D owns its array, obj[y,x]=v writes it in place, copies own a copy, reads change "
+               "nothing -- modelled as a list of contents and checked by every history (contents shown by np.array(obj) at every read)"]
 
 _tally = {}
 def _t(k): _tally[k] = _tally.get(k, 0) + 1
@@ -108,10 +121,13 @@ def rand_mask(rng, h, w):
 
 GEOMS = [[1, 1, 0, 0], [2, 1, 1, -2], [1, 2, -3, 0], [2, 2, 0, 1]]
 KS = [1, 3, 5, 7]
+# histories also use larger integer scales / origins (every coordinate stays an exact half-integer)
+GEOMS_X = GEOMS + [[1024, 3, -7, 6], [3, 5, -6, 10]]
 
 def gen_inputs(tier, rng):
     big = tier == "thorough"
     i = 0
+    yield from hist_inputs(tier, rng)
     # ---- exhaustive, util level (quick: all shapes with H*W <= 10 plus 3x4 / 4x3, the 12-cell shapes that have interior
     #      pixels; thorough: all shapes with H*W <= 12)
     for (h, w) in shapes_upto(12):
@@ -173,6 +189,136 @@ def gen_inputs(tier, rng):
                    "g": rng.choice(GEOMS)}
         yield {"op": rng.choice(["blurutil", "blur", "blurgrid"]), "m": ms, "k": [rng.choice(KS[:3]), rng.choice(KS[:3])], "g": rng.choice(GEOMS)}
 
+# ----------------------------------------------------------------------------- history programs
+NEW_ROUTES = ["ctor", "ctor", "ctor_list", "ctor_int", "ctor_invert", "with_new_array"]
+COPY_ROUTES = ["copy", "copy.copy", "deepcopy", "ctor", "ctor_array"]
+EDIT_ROUTES = ["item", "item", "mask", "array", "row", "np_item", "item_int", "where"]
+DERIVES = [("edge", "dm"), ("edge", "grid"), ("border", "dm"), ("border", "grid"), ("buffed", "dm"), ("invert", "dm"),
+           ("blur", "dm"), ("blur", "grid")]
+HKS = [[3, 3], [1, 1], [1, 3], [5, 1], [3, 5], [3, 3], [2, 3]]
+
+def _rows(rng, big=False):
+    """a start mask: any topology, ring pixels included; half of the time inside a masked padding ring so that a
+    blurring mask exists"""
+    if rng.random() < 0.5:
+        return pad(rand_mask(rng, rng.randint(1, 4), rng.randint(1, 4)), rng.randint(0, 2), rng.randint(0, 2))
+    return rand_mask(rng, rng.randint(1, 7 if big else 6), rng.randint(1, 7 if big else 6))
+
+def _edit(rng, oref, route=None, mode=None):
+    route = route or rng.choice(EDIT_ROUTES)
+    cells = [[rng.randrange(64), rng.randrange(64)] for _ in range(rng.randint(1, 3) if route == "where" else 1)]
+    return ["edit", route, oref, cells, mode or rng.choice(["flip", "flip", "flip", "T", "F"]), rng.choice([0, 0, 0, 1, 2, 3])]
+
+def _read(rng, oref, op="views", held=None):
+    held = rng.random() < 0.3 if held is None else held
+    order = list(range(len(VIEW_FIELDS)))
+    if rng.random() < 0.7: rng.shuffle(order)
+    p = {}
+    if op in ("blur", "blurgrid", "blurutil"): p = {"k": rng.choice(HKS)}
+    if op == "util": p = {"buffer": rng.choice([0, 1, 1, 2])}
+    return ["read", oref, op, held, order if op == "views" else None, p]
+
+def _hist(g, steps): return {"op": "hist", "g": g, "steps": steps}
+
+def _reread(rng, o, held=None, k=None):
+    """everything is read again from object o: the eleven views, the blurring mask and grid (kernel k, default the (3,3)
+    of the partial reads), the util functions on the twin array"""
+    k = k or [3, 3]
+    out = [_read(rng, o, "views", held), ["read", o, "blur", False, None, {"k": k}], ["read", o, "blurgrid", False, None, {"k": k}],
+           ["read", o, "util", False, None, {"buffer": 1}], ["read", o, "blurutil", False, None, {"k": k}]]
+    if rng.random() < 0.3: out.append(_read(rng, o, "checkedge"))
+    rng.shuffle(out)
+    return out
+
+def hist_inputs(tier, rng):
+    big = tier == "thorough"
+    # ---- A: read ONE view (fresh or held derive_* objects), edit the same Mask2D in place, read everything again
+    for rep in range(3 if big else 1):
+        for si, sel in enumerate(SEL_NAMES):
+            for held in (False, True):
+                for route in (EDIT_ROUTES[1:] if big else [EDIT_ROUTES[1 + (si + held + rep) % 7], "item"]):
+                    yield _hist(rng.choice(GEOMS_X), [["new", rng.choice(NEW_ROUTES[:5]), _rows(rng)], ["touch", 0, [sel], held],
+                                                    _edit(rng, 0, route, "flip")] + _reread(rng, 0, held) + [_read(rng, 0, "views", not held)])
+    # ---- B / C: read one view, copy, edit the copy (B) or the original (C), read both
+    for rep in range(3 if big else 1):
+        for si, sel in enumerate(SEL_NAMES):
+            for ci, croute in enumerate(COPY_ROUTES):
+                if not big and (si + ci + rep) % 2: continue
+                tgt = (si + ci) % 2                      # 1 = edit the copy, 0 = edit the original
+                held = (si + ci) % 3 == 0
+                yield _hist(rng.choice(GEOMS_X), [["new", "ctor", _rows(rng)], ["touch", 0, [sel], held], ["copy", croute, 0],
+                                                _edit(rng, tgt, None, "flip")] + _reread(rng, 1, False) + _reread(rng, 0, held))
+    # ---- D: a DERIVED Mask2D is itself observed, edited and observed again, and so is its source
+    for rep in range(3 if big else 1):
+        for di_, (dname, droute) in enumerate(DERIVES):
+            for si, sel in enumerate(SEL_NAMES):
+                if not big and (si + di_ + rep) % 4: continue
+                k = rng.choice(HKS[:5])
+                yield _hist(rng.choice(GEOMS_X), [["new", "ctor", pad(rand_mask(rng, rng.randint(1, 4), rng.randint(1, 4)), k[0] // 2 + rng.randint(0, 1), k[1] // 2 + rng.randint(0, 1))],
+                                                _read(rng, 0, "views"), ["read", 0, "blur", False, None, {"k": k}],
+                                                ["derive", dname, droute, 0, k[0], k[1]], _read(rng, 1, "views"), ["touch", 1, [sel], si % 2 == 0],
+                                                _edit(rng, 1, None, "flip")] + _reread(rng, 1, si % 2 == 0, k) + [_read(rng, 0, "views"),
+                                                _edit(rng, 0, None, "flip")] + _reread(rng, 0, None, k) + [_read(rng, 1, "views")])
+    # ---- D2: a Mask2D obtained from another one by with_new_array / resized_from (new contents, same class instance
+    #      machinery) after the source's views were read
+    for rep in range(3 if big else 1):
+        for si, sel in enumerate(SEL_NAMES):
+            if not big and si % 2 != rep % 2: continue
+            step = ["new", "with_new_array", _rows(rng)] if si % 3 else ["resized", 0, rng.randint(-1, 2), rng.randint(-1, 2)]
+            yield _hist(rng.choice(GEOMS_X), [["new", "ctor", _rows(rng)], ["touch", 0, [sel], False], _read(rng, 0, "views", si % 4 == 0), step,
+                                              _read(rng, 1, "views", False), _edit(rng, 1, None, "flip")] + _reread(rng, 1) + [_read(rng, 0, "views", si % 4 == 0)])
+    # ---- G: two edits that restore the number of unmasked pixels (and the shape): one pixel masked, another unmasked
+    for rep in range(4 if big else 1):
+        for si, sel in enumerate(SEL_NAMES):
+            for held in (False, True):
+                rows = _rows(rng)
+                h, w = len(rows), len(rows[0])
+                ones = [[y, x] for y in range(h) for x in range(w) if rows[y][x] == "1"]
+                zeros = [[y, x] for y in range(h) for x in range(w) if rows[y][x] == "0"]
+                if not ones or not zeros: rows = ["110", "011", "111"]; ones, zeros = [[0, 0]], [[0, 2]]
+                a, b = rng.choice(ones), rng.choice(zeros)
+                if rng.random() < 0.5: a, b = b, a
+                yield _hist(rng.choice(GEOMS_X), [["new", "ctor", rows], ["touch", 0, [sel], held], _read(rng, 0, "views", held),
+                                                ["edit", rng.choice(EDIT_ROUTES[:7]), 0, [a], "flip", 0], ["edit", rng.choice(EDIT_ROUTES[:7]), 0, [b], "flip", 0]]
+                            + _reread(rng, 0, held))
+    # ---- E: every mask of a small shape, every cell flipped after a full read
+    shapes = shapes_upto(6) + [(3, 3)] if big else shapes_upto(4)
+    n = 0
+    for (h, w) in shapes:
+        for ms in all_masks(h, w):
+            for cy in range(h):
+                for cx in range(w):
+                    n += 1
+                    yield _hist(GEOMS[n % 4], [["new", "ctor", ms], _read(rng, 0, "views", n % 3 == 0),
+                                               ["edit", EDIT_ROUTES[n % 8], 0, [[cy, cx]], "flip", 0], _read(rng, 0, "views", n % 3 == 0)])
+    if not big:
+        for n, ms in enumerate(all_masks(3, 3)):
+            if n % 5: continue
+            yield _hist(GEOMS[n % 4], [["new", "ctor", ms], ["touch", 0, [SEL_NAMES[n % 14], SEL_NAMES[(n // 14) % 14]], n % 2 == 0],
+                                       ["edit", EDIT_ROUTES[n % 8], 0, [[n % 3, (n // 3) % 3]], "flip", 0], _read(rng, 0, "views", n % 2 == 0)])
+    # ---- F: random programs (one preferred kernel per history, so that the same call is repeated across edits)
+    for j in range(1500 if big else 150):
+        steps = [["new", rng.choice(NEW_ROUTES[:5]), _rows(rng, big)]]
+        hk = rng.choice(HKS)
+        def kk(): return hk if rng.random() < 0.75 else rng.choice(HKS)
+        for _ in range(rng.randint(4, 14)):
+            r = rng.random(); o = rng.randrange(8)
+            if r < 0.30: steps.append(_edit(rng, o))
+            elif r < 0.48: steps.append(_read(rng, o, "views"))
+            elif r < 0.62:
+                rd = _read(rng, o, rng.choice(["util", "checkedge", "blurutil", "blur", "blur", "blurgrid", "blurgrid", "contents"]))
+                if "k" in rd[5]: rd[5] = {"k": kk()}
+                steps.append(rd)
+            elif r < 0.76: steps.append(["touch", o, rng.sample(SEL_NAMES, rng.randint(1, 4)), rng.random() < 0.4])
+            elif r < 0.84: steps.append(["copy", rng.choice(COPY_ROUTES), o])
+            elif r < 0.93:
+                d = rng.choice(DERIVES); k = kk()
+                steps.append(["derive", d[0], d[1], o, k[0], k[1]])
+            elif r < 0.97: steps.append(["new", rng.choice(NEW_ROUTES), _rows(rng, big)])
+            else: steps.append(["resized", o, rng.randint(-1, 2), rng.randint(-1, 2)])
+        steps += _reread(rng, rng.randrange(8), None, hk)
+        yield _hist(rng.choice(GEOMS_X), steps)
+
 # ----------------------------------------------------------------------------- implementation calls
 def _classify(M):
     h, w = len(M), len(M[0])
@@ -180,82 +326,271 @@ def _classify(M):
     ring = any(y in (0, h - 1) or x in (0, w - 1) for y, x in un)
     return un, ring
 
-def run_case(inp):
-    aa = import_aa()
+VIEW_FIELDS = ["edge_slim", "edge_native", "border_slim", "border_native", "mask_edge", "mask_border", "mask_buffed",
+               "grid_edge", "grid_edge_mask", "grid_border", "grid_border_mask"]
+# selector numbers of HTouch: the eleven fields of a full read, three more entry points, the util functions (on the twin array)
+SEL_NAMES = VIEW_FIELDS + ["blur33", "blurgrid33", "native_for_slim", "u_total", "u_edge", "u_border", "u_buffed", "u_blur33"]
+
+def _view(aa, m, name, handles=None, raw=None):
+    """one view of the Mask2D `m`, through fresh derive_* objects or through the held `handles` = (di, dm, dg);
+    the u_* selectors call the util functions on the ndarray `raw`"""
+    di, dm, dg = handles if handles is not None else (None, None, None)
+    if name.startswith("u_"):
+        from autoarray.mask import mask_2d_util as u
+        if name == "u_total": return int(u.total_edge_pixels_from(mask_2d=raw))
+        if name == "u_edge": return ints(u.edge_1d_indexes_from(mask_2d=raw))
+        if name == "u_border": return ints(u.border_slim_indexes_from(mask_2d=raw))
+        if name == "u_buffed": return mask_out(u.buffed_mask_2d_from(mask_2d=raw, buffer=1))
+        r = call_res(u.blurring_mask_2d_from, mask_2d=raw, kernel_shape_native=(3, 3))
+        return r if r[0] == "raise" else ("ok", mask_out(r[1]))
+    if name in ("edge_slim", "edge_native", "border_slim", "border_native", "native_for_slim"):
+        di = di if di is not None else m.derive_indexes
+        if name == "edge_slim": return ints(di.edge_slim)
+        if name == "border_slim": return ints(di.border_slim)
+        if name == "edge_native": return pairs(di.edge_native)
+        if name == "border_native": return pairs(di.border_native)
+        return pairs(di.native_for_slim)
+    if name in ("mask_edge", "mask_border", "mask_buffed", "blur33"):
+        dm = dm if dm is not None else m.derive_mask
+        if name == "mask_edge": return mask_out(dm.edge)
+        if name == "mask_border": return mask_out(dm.border)
+        if name == "mask_buffed": return mask_out(dm.edge_buffed)
+        r = call_res(lambda: dm.blurring_from(kernel_shape_native=(3, 3)))
+        return r if r[0] == "raise" else ("ok", mask_out(r[1]))
+    if name == "blurgrid33":
+        r = call_res(lambda: aa.Grid2D.blurring_grid_from(mask=m, kernel_shape_native=(3, 3)))
+        return r if r[0] == "raise" else ("ok", pairs2(r[1]))
+    dg = dg if dg is not None else m.derive_grid
+    if name == "grid_edge": return pairs2(dg.edge)
+    if name == "grid_edge_mask": return mask_out(dg.edge.mask)
+    if name == "grid_border": return pairs2(dg.border)
+    if name == "grid_border_mask": return mask_out(dg.border.mask)
+    raise ValueError(name)
+
+def _views_term(M, g, o):
+    return (f"KViews {cmask(M)} {ctup([cz(v) for v in g])} (Build_views {czl(o['edge_slim'])} {cpxl(o['edge_native'])} "
+            f"{czl(o['border_slim'])} {cpxl(o['border_native'])} {cmask(o['mask_edge'])} {cmask(o['mask_border'])} "
+            f"{cmask(o['mask_buffed'])} {cpxl(o['grid_edge'])} {cmask(o['grid_edge_mask'])} {cpxl(o['grid_border'])} "
+            f"{cmask(o['grid_border_mask'])})")
+
+def _observe(aa, op, p, M, get_m, get_raw, g, handles=None, order=None):
+    """Observe operation `op` once.  M: the contents to print in the case (rows of bools); get_m(): the Mask2D;
+    get_raw(): the ndarray handed to the util functions.  Returns (coq term of type case1 | None, out, py_ok, detail)."""
     from autoarray.mask import mask_2d_util as u
-    op = inp["op"]
-    M = rows_of(inp["m"])
-    arr = np.array(M, dtype=bool)
-    un, ring = _classify(M)
-    nontrivial = len(un) > 0
-    kind = op
-    out = None; coq = None; py_ok = None; detail = None
-    if op in ("blurutil", "blur", "blurgrid"):
-        kh, kw = inp["k"]
-        if op == "blurutil":
-            r = call_res(u.blurring_mask_2d_from, mask_2d=arr, kernel_shape_native=(kh, kw))
-            out = r if r[0] == "raise" else ("ok", mask_out(r[1]))
-            coq = f"KBlurUtil {cmask(M)} {cz(kh)} {cz(kw)} {cres(out, cmask)}"
-        elif op == "blur":
-            def f():
-                m = aa.Mask2D(mask=arr, pixel_scales=1.0)
-                return m.derive_mask.blurring_from(kernel_shape_native=(kh, kw))
-            r = call_res(f)
-            out = r if r[0] == "raise" else ("ok", mask_out(r[1]))
-            coq = f"KBlur {cmask(M)} {cz(kh)} {cz(kw)} {cres(out, cmask)}"
-        else:
-            sy, sx, oy, ox = inp["g"]
-            def f():
-                m = aa.Mask2D(mask=arr, pixel_scales=(float(sy), float(sx)), origin=(float(oy), float(ox)))
-                return aa.Grid2D.blurring_grid_from(mask=m, kernel_shape_native=(kh, kw))
-            r = call_res(f)
-            out = r if r[0] == "raise" else ("ok", pairs2(r[1]))
-            coq = f"KBlurGrid {cmask(M)} {cz(kh)} {cz(kw)} {ctup([cz(v) for v in inp['g']])} {cres(out, cpxl)}"
-        kind = op + (":ok" if out[0] == "ok" else ":" + out[1])
-        if kh % 2 == 0 or kw % 2 == 0 or kh <= 0 or kw <= 0: kind += ":evenk"
-    elif op == "util":
-        b = int(inp["buffer"])
+    if op == "blurutil":
+        kh, kw = p["k"]
+        r = call_res(u.blurring_mask_2d_from, mask_2d=get_raw(), kernel_shape_native=(kh, kw))
+        out = r if r[0] == "raise" else ("ok", mask_out(r[1]))
+        return f"KBlurUtil {cmask(M)} {cz(kh)} {cz(kw)} {cres(out, cmask)}", out, None, None
+    if op == "blur":
+        kh, kw = p["k"]
+        r = call_res(lambda: get_m().derive_mask.blurring_from(kernel_shape_native=(kh, kw)))
+        out = r if r[0] == "raise" else ("ok", mask_out(r[1]))
+        return f"KBlur {cmask(M)} {cz(kh)} {cz(kw)} {cres(out, cmask)}", out, None, None
+    if op == "blurgrid":
+        kh, kw = p["k"]
+        r = call_res(lambda: aa.Grid2D.blurring_grid_from(mask=get_m(), kernel_shape_native=(kh, kw)))
+        out = r if r[0] == "raise" else ("ok", pairs2(r[1]))
+        return f"KBlurGrid {cmask(M)} {cz(kh)} {cz(kw)} {ctup([cz(v) for v in g])} {cres(out, cpxl)}", out, None, None
+    if op == "util":
+        b = int(p["buffer"])
         def f():
+            arr = get_raw()
             return (int(u.total_edge_pixels_from(mask_2d=arr)), ints(u.edge_1d_indexes_from(mask_2d=arr)),
                     ints(u.border_slim_indexes_from(mask_2d=arr)), mask_out(u.buffed_mask_2d_from(mask_2d=arr, buffer=b)))
         r = call_res(f)
-        if r[0] == "raise":
-            py_ok = False; detail = "util raised " + r[1]; out = r
-        else:
-            out = list(r[1])
-            coq = f"KUtil {cmask(M)} {cz(out[0])} {czl(out[1])} {czl(out[2])} {cz(b)} {cmask(out[3])}"
-            if out[1] != out[2]: kind += ":inner-edge"
-    elif op == "checkedge":
-        r = call_res(lambda: [bool(u.check_if_edge_pixel(mask_2d=arr, y=y, x=x)) for (y, x) in un])
-        if r[0] == "raise":
-            py_ok = False; detail = "check_if_edge_pixel raised " + r[1]; out = r
-        else:
-            out = r[1]
-            coq = f"KCheckEdge {cmask(M)} {clist([cbool(v) for v in out])}"
-    elif op == "views":
-        sy, sx, oy, ox = inp["g"]
+        if r[0] == "raise": return None, r, False, "util raised " + r[1]
+        out = list(r[1])
+        return f"KUtil {cmask(M)} {cz(out[0])} {czl(out[1])} {czl(out[2])} {cz(b)} {cmask(out[3])}", out, None, None
+    if op == "checkedge":
+        un, _ = _classify(M)
         def f():
-            m = aa.Mask2D(mask=arr, pixel_scales=(float(sy), float(sx)), origin=(float(oy), float(ox)))
-            di, dm, dg = m.derive_indexes, m.derive_mask, m.derive_grid
-            ge, gb = dg.edge, dg.border
-            return {"edge_slim": ints(di.edge_slim), "edge_native": pairs(di.edge_native),
-                    "border_slim": ints(di.border_slim), "border_native": pairs(di.border_native),
-                    "mask_edge": mask_out(dm.edge), "mask_border": mask_out(dm.border), "mask_buffed": mask_out(dm.edge_buffed),
-                    "grid_edge": pairs2(ge), "grid_edge_mask": mask_out(ge.mask),
-                    "grid_border": pairs2(gb), "grid_border_mask": mask_out(gb.mask)}
+            arr = get_raw()
+            return [bool(u.check_if_edge_pixel(mask_2d=arr, y=y, x=x)) for (y, x) in un]
         r = call_res(f)
-        if r[0] == "raise":
-            py_ok = False; detail = "a derive_* view raised " + r[1]; out = r
-        else:
-            o = out = r[1]
-            coq = (f"KViews {cmask(M)} {ctup([cz(v) for v in inp['g']])} (Build_views {czl(o['edge_slim'])} {cpxl(o['edge_native'])} "
-                   f"{czl(o['border_slim'])} {cpxl(o['border_native'])} {cmask(o['mask_edge'])} {cmask(o['mask_border'])} "
-                   f"{cmask(o['mask_buffed'])} {cpxl(o['grid_edge'])} {cmask(o['grid_edge_mask'])} {cpxl(o['grid_border'])} "
-                   f"{cmask(o['grid_border_mask'])})")
-            if o["edge_slim"] != o["border_slim"]: kind += ":inner-edge"
-    else:
-        raise ValueError(op)
+        if r[0] == "raise": return None, r, False, "check_if_edge_pixel raised " + r[1]
+        return f"KCheckEdge {cmask(M)} {clist([cbool(v) for v in r[1]])}", r[1], None, None
+    if op == "views":
+        def f():
+            m = get_m()
+            return {name: _view(aa, m, name, handles) for name in (order or VIEW_FIELDS)}
+        r = call_res(f)
+        if r[0] == "raise": return None, r, False, "a derive_* view raised " + r[1]
+        return _views_term(M, g, r[1]), r[1], None, None
+    if op == "contents":
+        return f"KContents {cmask(M)}", M, None, None
+    raise ValueError(op)
+
+def run_case(inp):
+    aa = import_aa()
+    op = inp["op"]
+    if op == "hist": return run_hist(aa, inp)
+    M = rows_of(inp["m"])
+    arr = np.array(M, dtype=bool)
+    un, ring = _classify(M)
+    g = inp.get("g", [1, 1, 0, 0])
+    sy, sx, oy, ox = g
+    term, out, py_ok, detail = _observe(
+        aa, op, inp, M,
+        lambda: aa.Mask2D(mask=arr, pixel_scales=(float(sy), float(sx)), origin=(float(oy), float(ox))),
+        lambda: arr, g)
+    if py_ok is None and not np.array_equal(arr, np.array(M, dtype=bool)):
+        py_ok = False; detail = "the caller's mask array was modified by the call"
+    kind = op
+    if op in ("blurutil", "blur", "blurgrid"):
+        kh, kw = inp["k"]
+        kind = op + (":ok" if out[0] == "ok" else ":" + out[1])
+        if kh % 2 == 0 or kw % 2 == 0 or kh <= 0 or kw <= 0: kind += ":evenk"
+    elif op == "util" and term is not None and out[1] != out[2]: kind += ":inner-edge"
+    elif op == "views" and term is not None and out["edge_slim"] != out["border_slim"]: kind += ":inner-edge"
     if ring: kind += ":ring"
     _t(kind); _t(f"unmasked={min(len(un), 10)}{'+' if len(un) >= 10 else ''}")
-    return {"coq": None if coq is None else "(" + coq + ")", "out": out, "py_ok": py_ok, "nontrivial": nontrivial,
+    return {"coq": None if term is None else "(K1 (" + term + "))", "out": out, "py_ok": py_ok, "nontrivial": len(un) > 0,
             "kind": op, "detail": detail}
+
+# ----------------------------------------------------------------------------- histories
+# A history is a small program over a pool of Mask2D objects (see Model/C10.v Part 5).  Object references and cell
+# positions are resolved at run time (index modulo the number of live objects / the shape of the target), so that a
+# program stays meaningful whatever the implementation returns.  Every object has a twin ndarray `raw` that receives
+# the same edits and is the (re-used) argument of the util functions.
+class _Obj:
+    __slots__ = ("m", "raw", "h", "seen", "arg", "arg0")
+    def __init__(self, m, raw):
+        self.m = m; self.raw = raw; self.h = None; self.seen = {}; self.arg = None; self.arg0 = None
+
+D_COQ = {"edge": "DEdge", "border": "DBorder", "buffed": "DBuffed", "invert": "DInvert"}
+
+def _cell(ob_shape, iy, ix, neg):
+    H, W = ob_shape
+    y, x = iy % H, ix % W
+    if neg & 1: y -= H
+    if neg & 2: x -= W
+    return y, x
+
+def run_hist(aa, inp):
+    import copy as _copy
+    g = inp["g"]; sy, sx, oy, ox = g
+    ps, org = (float(sy), float(sx)), (float(oy), float(ox))
+    objs = []; steps = []; log = []; problems = []
+    nreads = 0; nedits = 0
+
+    def cur(ob): return mask_out(np.array(ob.m))
+    def handles(ob, held):
+        if not held: return None
+        if ob.h is None: ob.h = (ob.m.derive_indexes, ob.m.derive_mask, ob.m.derive_grid)
+        return ob.h
+    def check_arg(ob):
+        if ob.arg is not None and not np.array_equal(np.asarray(ob.arg), ob.arg0):
+            problems.append("the array given to the Mask2D constructor was modified")
+        ob.arg = None
+    def add(m, contents_rows):
+        ob = _Obj(m, np.array(contents_rows, dtype=bool)); objs.append(ob); return ob
+
+    for st in inp["steps"]:
+        kind = st[0]
+        if kind != "new" and not objs: continue
+        if kind == "new":
+            _, route, rows = st
+            M = rows_of(rows); a = np.array(M, dtype=bool)
+            if route == "ctor_list": arg = [list(r) for r in M]; m = aa.Mask2D(mask=arg, pixel_scales=ps, origin=org)
+            elif route == "ctor_int": arg = a.astype(int); m = aa.Mask2D(mask=arg, pixel_scales=ps, origin=org)
+            elif route == "ctor_invert": arg = ~a; m = aa.Mask2D(mask=arg, pixel_scales=ps, origin=org, invert=True)
+            elif route == "with_new_array" and objs: arg = None; m = objs[0].m.with_new_array(a.copy())
+            else: arg = a.copy(); m = aa.Mask2D(mask=arg, pixel_scales=ps, origin=org)
+            ob = add(m, M)
+            if arg is not None and not isinstance(arg, list): ob.arg = arg; ob.arg0 = np.array(arg, copy=True)
+            steps.append(f"HNew {cmask(M)}"); log.append(["new", route])
+        elif kind == "resized":
+            _, oref, dh, dw = st
+            o = oref % len(objs); src = objs[o]; H, W = src.raw.shape
+            m = src.m.resized_from(new_shape=(max(1, H + dh), max(1, W + dw)), pad_value=1)
+            M = cur_rows = mask_out(np.array(m)); add(m, M)
+            steps.append(f"HNew {cmask(M)}"); log.append(["resized", o])
+        elif kind == "copy":
+            _, route, oref = st
+            o = oref % len(objs); src = objs[o]
+            if route == "copy.copy": m = _copy.copy(src.m)
+            elif route == "deepcopy": m = _copy.deepcopy(src.m)
+            elif route == "ctor": m = aa.Mask2D(mask=src.m, pixel_scales=src.m.pixel_scales, origin=src.m.origin)
+            elif route == "ctor_array": m = aa.Mask2D(mask=np.array(src.m), pixel_scales=src.m.pixel_scales, origin=src.m.origin)
+            else: m = src.m.copy()
+            ob = add(m, src.raw)
+            steps.append(f"HCopy {o}%nat"); log.append(["copy", route, o])
+        elif kind == "derive":
+            _, dname, route, oref, kh, kw = st
+            o = oref % len(objs); src = objs[o]
+            def f():
+                if dname == "edge": return src.m.derive_grid.edge.mask if route == "grid" else src.m.derive_mask.edge
+                if dname == "border": return src.m.derive_grid.border.mask if route == "grid" else src.m.derive_mask.border
+                if dname == "buffed": return src.m.derive_mask.edge_buffed
+                if dname == "invert": return src.m.invert()
+                if route == "grid": return aa.Grid2D.blurring_grid_from(mask=src.m, kernel_shape_native=(kh, kw)).mask
+                return src.m.derive_mask.blurring_from(kernel_shape_native=(kh, kw))
+            r = call_res(f)
+            if r[0] == "raise":
+                if dname != "blur": problems.append(f"deriving {dname} raised {r[1]}"); continue
+                # no new object: what was observed is a read of blurring_from on the current contents
+                steps.append(f"HRead {o}%nat (KBlur {cmask(cur(src))} {cz(kh)} {cz(kw)} (Raise {r[1]}))"); nreads += 1
+                log.append(["derive-raised", dname, o, r[1]]); continue
+            M = mask_out(np.array(r[1])); add(r[1], M)
+            d = f"(DBlur {cz(kh)} {cz(kw)})" if dname == "blur" else D_COQ[dname]
+            steps.append(f"HDerive {o}%nat {d} {cmask(M)}"); log.append(["derive", dname, route, o])
+        elif kind == "edit":
+            _, route, oref, cells, mode, neg = st
+            o = oref % len(objs); ob = objs[o]; check_arg(ob)
+            H, W = ob.raw.shape
+            now = np.array(ob.m)
+            yx = [_cell((H, W), iy, ix, neg) for iy, ix in (cells if route == "where" else cells[:1])]
+            y, x = yx[0]
+            v = (not bool(now[y, x])) if mode == "flip" else (mode == "T")
+            if route == "mask": ob.m.mask[y, x] = v
+            elif route == "array": ob.m.array[y, x] = v
+            elif route == "row": ob.m[y][x] = v
+            elif route == "np_item": ob.m[np.int64(y), np.int64(x)] = np.bool_(v)
+            elif route == "item_int": ob.m[y, x] = int(v)
+            elif route == "where":
+                key = np.zeros((H, W), dtype=bool)
+                for (a, b) in yx: key[a, b] = True
+                ob.m[key] = v
+            else: ob.m[y, x] = v
+            for (a, b) in (yx if route == "where" else yx[:1]):
+                ob.raw[a, b] = v
+                steps.append(f"HEdit {o}%nat {cz(a)} {cz(b)} {cbool(v)}")
+            ob.seen = {}; nedits += 1; log.append(["edit", route, o, yx, v])
+        elif kind == "touch":
+            _, oref, names, held = st
+            o = oref % len(objs); ob = objs[o]
+            for name in names:
+                r = call_res(lambda: _view(aa, ob.m, name, handles(ob, held), ob.raw))
+                if r[0] == "raise": problems.append(f"reading {name} raised {r[1]}")
+                else: ob.seen[name] = r[1]
+            if mask_out(ob.raw) != cur(ob): problems.append("a partial read changed the object or the array given to a util function")
+            steps.append(f"HTouch {o}%nat {czl([SEL_NAMES.index(n) for n in names])}"); log.append(["touch", o, names, held])
+        elif kind == "read":
+            _, oref, op, held, order, p = st
+            o = oref % len(objs); ob = objs[o]
+            M = cur(ob) if op in ("views", "blur", "blurgrid", "contents") else mask_out(ob.raw)
+            term, out, py_ok, detail = _observe(aa, op, p, M, lambda: ob.m, lambda: ob.raw, g, handles(ob, held),
+                                                [VIEW_FIELDS[i] for i in order] if order else None)
+            if py_ok is False: problems.append(detail); continue
+            if op in ("util", "checkedge", "blurutil"):
+                M2 = mask_out(ob.raw)                       # the util functions must not touch their argument
+                if M2 != M: problems.append(f"{op} modified the array it was given")
+            if op == "views":
+                for name, val in ob.seen.items():
+                    if name in out and out[name] != val:
+                        problems.append(f"{name} of an unchanged object was read twice with different results")
+                ob.seen.update(out)
+            steps.append(f"HRead {o}%nat ({term})"); nreads += 1; log.append(["read", o, op, held])
+        else:
+            raise ValueError(kind)
+    # finally every object shows its contents once more (nothing was changed by a read) and so does every twin
+    for o, ob in enumerate(objs):
+        check_arg(ob)
+        steps.append(f"HRead {o}%nat (KContents {cmask(cur(ob))})")
+        steps.append(f"HRead {o}%nat (KContents {cmask(mask_out(ob.raw))})")
+    _t("hist"); _t(f"hist:objects={len(objs)}"); _t(f"hist:edits={min(nedits, 5)}{'+' if nedits >= 5 else ''}")
+    nontrivial = any((not ob.raw.all()) for ob in objs) and nreads > 0
+    return {"coq": "(KHist " + clist(["(" + s + ")" for s in steps]) + ")", "out": {"log": log, "final": [mask_out(np.array(ob.m)) for ob in objs]},
+            "py_ok": False if problems else None, "nontrivial": nontrivial, "kind": "hist",
+            "detail": "; ".join(problems) if problems else None}
